@@ -556,6 +556,49 @@ def _cfg_chain(e, env):
     return None
 
 
+def _cfg_env(f):
+    """name -> config path for the local names of f that hold (a sub-dict of) the run
+    configuration: locals loaded from a TOML file / returned by setup_config / copies and
+    aliases of those are roots (path []), `x = <root>[...]...` are sub-dicts."""
+    env = {}
+
+    def is_root_expr(v):
+        if isinstance(v, ast.Name):
+            return v.id in env and env[v.id] == []
+        if isinstance(v, ast.IfExp):
+            return is_root_expr(v.body) and is_root_expr(v.orelse)
+        if isinstance(v, ast.Call):
+            d = dotted(v.func)
+            if last_name(v) in ("load", "loads") and d.split(".")[0] in ("tomli", "tomllib", "toml"):
+                return True
+            if last_name(v) == "setup_config":
+                return True
+            if last_name(v) in ("deepcopy", "copy", "dict") and v.args and is_root_expr(v.args[0]):
+                return True
+        return False
+
+    for a in f.args.posonlyargs + f.args.args + f.args.kwonlyargs:
+        if a.arg in ("config", "re_config"):
+            env[a.arg] = []
+    for _ in range(4):
+        changed = False
+        for n in walk_local(f):
+            if isinstance(n, ast.Assign) and len(n.targets) == 1 and isinstance(n.targets[0], ast.Name):
+                nm = n.targets[0].id
+                if is_root_expr(n.value):
+                    if env.get(nm) != []:
+                        env[nm] = []
+                        changed = True
+                    continue
+                c = _cfg_chain(n.value, env)
+                if c and env.get(nm) != c and nm not in env:
+                    env[nm] = c
+                    changed = True
+        if not changed:
+            break
+    return env
+
+
 def config_section_agreement(ctx, rid, what=""):
     """Every key of the run configuration is accessed under one section path in the whole
     package (aliases such as `sim = self.config["simulation"]` resolved). A key that one
@@ -566,12 +609,7 @@ def config_section_agreement(ctx, rid, what=""):
     for m, q, f in ctx.tree.all_funcs():
         if m.rel.startswith("infretis/tools"):
             continue
-        env = {}
-        for n in walk_local(f):
-            if isinstance(n, ast.Assign) and len(n.targets) == 1 and isinstance(n.targets[0], ast.Name):
-                c = _cfg_chain(n.value, env)
-                if c:
-                    env[n.targets[0].id] = c
+        env = _cfg_env(f)
         for n in walk_local(f):
             if not isinstance(n, (ast.Subscript, ast.Call)):
                 continue
@@ -631,7 +669,8 @@ def config_origin_tables(tree):
                 c = _cfg_chain(v, {})
                 if c:
                     o = tuple(c)
-                elif isinstance(v, ast.Attribute) and isinstance(v.value, ast.Name) and v.value.id in ("state", "self") and v.attr in props:
+                elif isinstance(v, ast.Attribute) and isinstance(v.value, ast.Name) and v.attr in props:
+                    # <scheduler object>.<property>: the property names of REPEX_state are its own vocabulary
                     o = props[v.attr]
                 if o is not None:
                     dictkeys.setdefault(k.value, set()).add(o)
@@ -643,7 +682,7 @@ def config_origin(e, props, dictkeys):
     c = _cfg_chain(e, {})
     if c:
         return tuple(c)
-    if isinstance(e, ast.Attribute) and isinstance(e.value, ast.Name) and e.value.id in ("self", "state") and e.attr in props:
+    if isinstance(e, ast.Attribute) and isinstance(e.value, ast.Name) and e.attr in props:
         return props[e.attr]
     # X[...]["k1"]["k2"]: the first key that names a config-backed dict entry
     keys = []
@@ -726,12 +765,7 @@ def restart_preserves_settings(ctx, rid, what=""):
     if rt is None:
         raise AnalysisError(f"{rid}: `if \"current\" in config` not found in setup_config")
     fresh = {id(x) for st in rt.orelse for x in ast.walk(st)}
-    env = {}
-    for n in walk_local(f):
-        if isinstance(n, ast.Assign) and len(n.targets) == 1 and isinstance(n.targets[0], ast.Name):
-            c = _cfg_chain(n.value, env)
-            if c:
-                env[n.targets[0].id] = c
+    env = _cfg_env(f)
     cnt = 0
     for st in walk_local(f):
         if not isinstance(st, ast.Assign) or id(st) in fresh:
